@@ -92,6 +92,12 @@ CLAIMED = {
         "The theorem is about effect summaries; that the code obeys them is observation on sampled call sequences (partial by nature). References kept by design (ubm, k_means_trainer, init_method) are not counted as aliasing. Found and fixed D15.",
         "§6 C19",
     ),
+    "C16": (
+        "Lean 4 theorems: history independence of every seeded fit in a model of the random-number plumbing (which generator each trainer draws from; the unseeded i-vector case is shown to depend on history), invariance of GMM ML / k-means training (all iterates, criterion, iteration count) under List.Perm of the samples, WCCN under permutations of samples and any injective class renaming; the model's provenance keys executed on real in-process histories: equal keys must give bit-identical models",
+        "Proof for all histories of global seedings / draws / earlier fits, all sample permutations and class renamings. Tie: random histories over k-means, GMM, ISV, JFA (in-memory and Dask), WCCN, i-vector fits; permuted / renamed / re-historied refits on the implementation.",
+        "dask_ml's seeded data-dependent initialisation is not modelled: its row-order dependence is known finding D14 (KNOWN-FINDING line, corpus witness). ISV/JFA sample-order / class-renaming clauses are checked by the search only until the training model (C09) is built.",
+        "§6 C16",
+    ),
 }
 
 NOT_YET = "check not built yet in this round (see DESIGN.md §8 order of work); not claimed"
